@@ -216,6 +216,10 @@ var materialisedKinds = map[string]bool{"none": true, "torn-header": true, "torn
 	"remove-none": true, "remove-header": true, "remove-header-zeroed": true, "remove-complete": true, "idle": true,
 	"recv-nowrite": true, "remove-nowrite": true}
 
+// cleanKinds are the states after which the same directory is used for further kill rounds.
+var cleanKinds = map[string]bool{"none": true, "full-noindex": true, "full-indexed": true, "recv-nowrite": true,
+	"remove-none": true, "remove-complete": true, "remove-nowrite": true, "idle": true}
+
 // killRuns performs `kills` real SIGKILLs on one store kind.
 func killRuns(r *ev.Run, kind, scratch string, kills int) {
 	rng := r.Rand("kill/" + kind)
@@ -400,7 +404,7 @@ func killRuns(r *ev.Run, kind, scratch string, kills int) {
 						case present:
 							o.info.Kind = "remove-header" // header rewritten (body possibly zeroed), row still there
 						case liveHeader:
-							o.info.Kind = "pl-remove-index-only"
+							o.info.Kind = "remove-index-only" // seen after a real kill: not a power-loss-only state here
 						default:
 							o.info.Kind = "remove-complete"
 						}
@@ -435,9 +439,16 @@ func killRuns(r *ev.Run, kind, scratch string, kills int) {
 				o.reindexCheck(dir, idxKind, killMaxFileSize, fmt.Sprintf("rebuilt-r%d", round))
 			}
 		})
+		sampleFirst(r, "kill-"+kind, map[string]any{"case": o.info})
 		r.Count("restarts_after_real_kill", 1)
 		r.Note("restarts", kind+"/real-kill")
 		r.Distinct("kill|" + kind + "|" + o.info.Kind + "|" + fmt.Sprint(len(j.acked) > 0))
+		if packed && !cleanKinds[o.info.Kind] {
+			// a half-done operation stays in the packs; what later rounds observe would be
+			// attributed to their own (unrelated) in-flight state: start over
+			r.Count("real_kill_dirs_left_after_half_done_op", 1)
+			abandon = true
+		}
 		if o.violations > 0 || abandon {
 			fresh()
 		}
